@@ -19,6 +19,7 @@ import (
 	"fmt"
 	"github.com/echovault/sugardb/internal"
 	"github.com/echovault/sugardb/internal/clock"
+	"github.com/echovault/sugardb/verifhook"
 	"io"
 	"os"
 	"path"
@@ -99,6 +100,7 @@ func NewPreambleStore(options ...func(store *Store)) (*Store, error) {
 			return nil, fmt.Errorf("new preamble store -> open file error: %+v", err)
 		}
 		store.rw = f
+		store.rw = verifhook.WrapFile(path.Join(store.directory, "aof", "preamble.bin"), store.rw)
 	}
 
 	return store, nil
